@@ -107,7 +107,14 @@ def witness_cases():
     # and the request does not answer 200; then the valid part is posted again
     hrefused = {"datasets": ["a"], "ops": [{"op": "hbatch", "ds": "a", "ents": many[:14], "reject": True}] + fin + [{"op": "seqs", "ds": "a"}]
                 + [{"op": "hbatch", "ds": "a", "ents": many[10:14]}] + fin + [{"op": "seqs", "ds": "a"}]}
-    return races + [http, proxy, hrefused] + [
+    # three uploads through the HTTP handler, the second one binding the default prefix of its @context to ANOTHER namespace:
+    # its ids, property keys, reference keys and reference values all denote http://w/...; the third is back to the usual one
+    R9 = {"props": {"p1": "a", "p2": 7}, "refs": {"r1": "e2", "r2": ["e3", "e4"]}}
+    twoctx = {"datasets": ["a"], "ops": [
+        {"op": "hbatch", "ds": "a", "ents": [sc.with_id("e1", R9), sc.with_id("e2", A)]},
+        {"op": "hbatch", "ds": "a", "ents": [sc.with_id("e1", R9), sc.with_id("e2", B)], "ctx": "http://w/"},
+        {"op": "hbatch", "ds": "a", "ents": [sc.with_id("e1", R9), sc.with_id("e2", B)]}] + fin}
+    return races + [http, proxy, hrefused, twoctx] + [
         # F02a: identical element repeated inside one batch (new id)
         {"datasets": ["a"], "ops": [{"op": "batch", "ds": "a", "ents": [sc.with_id("e1", A), sc.with_id("e1", A)]}] + fin},
         # F02a: existing id
